@@ -452,6 +452,8 @@ impl Store {
                     let heartbeat_tx = heartbeat_tx;
                     loop {
                         tokio::time::sleep(duration).await;
+                        #[cfg(feature = "verif")]
+                        vr_beat.point_as("beat.tick", vr_beat.beat());
                         let Some(heartbeat_tx) = heartbeat_tx.upgrade() else {
                             break;
                         };
